@@ -496,6 +496,10 @@ def c08_canon(R):
     # a renaming changes the name only: what the map stores for a symbol carries the symbol's annotations
     for st in stores:
         keyvar = next((x.id for x in ast.walk(st.targets[0].slice) if isinstance(x, ast.Name) and x.id != "var_map"), None)
+        # `key = v.hash()` hoisted into a local: the symbol is v
+        for a_ in walk_no_nested(fn):
+            if isinstance(a_, ast.Assign) and len(a_.targets) == 1 and isinstance(a_.targets[0], ast.Name) and a_.targets[0].id == keyvar and isinstance(a_.value, ast.Call) and isinstance(a_.value.func, ast.Attribute) and a_.value.func.attr == "hash" and isinstance(a_.value.func.value, ast.Name):
+                keyvar = a_.value.func.value.id
         carries = keyvar is not None and any(isinstance(x, ast.Attribute) and x.attr == "annotations" and isinstance(x.value, ast.Name) and x.value.id == keyvar for x in ast.walk(st.value))
         R.check(
             carries,
